@@ -697,7 +697,8 @@ PLANS["C16"] = dict(
           "with 1-5 fields of scalar, Option, Vec, nested derived struct/enum types; container rename_all (all 8 rules), rename, default, deny_unknown_fields; field rename (identifier and "
           "non-identifier names), alias, default, default = path, skip, skip_serializing, skip_deserializing, skip_serializing_if (Option::is_none, Vec::is_empty, with and without default), "
           "flatten; newtype, tuple and unit structs; unit-only enums with rename_all and renames; enums with unit/newtype/tuple/struct variants under external, internal, adjacent and untagged "
-          "representation with rename_all, rename_all_fields and variant renames; #[openapi(component)]. Each program is compiled against /repo first with serde alone (a refusal there drops the "
+          "representation with rename_all, rename_all_fields, variant renames, variant-level rename_all, skipped variants and several #[serde] attributes on one item; "
+          "rename(serialize = .., deserialize = ..); #[serde(transparent)] named and newtype structs; #[openapi(component)]. The first 22 type ids are hand-written witnesses of repaired and known findings. Each program is compiled against /repo first with serde alone (a refusal there drops the "
           "type as a generator fault) and then with derive(Schema) (a refusal there is a violation), run, and prints schema(), serde_json::to_value of 10 instances (one with every optional "
           "populated, four with every optional empty, five random) and probes that delete one key of one object at any depth and call from_value. oracle/schema_judge.py (jsonschema 2020-12) "
           "requires: schema valid; every instance validates; closed-world validation (additionalProperties:false injected) so every key written at any depth is declared; per object-schema "
@@ -711,7 +712,7 @@ PLANS["C16"] = dict(
     wall_limit={"quick": 900, "thorough": 3000},
     assumptions=["serde_json is the wire format; the schema language is read as JSON Schema 2020-12 (OpenAPI 3.1), so `nullable` has no effect",
                  "requiredness is compared only for keys some instance wrote and whose instance serde reads back (types with skip_serializing fields without default do not round-trip)",
-                 "generic types, lifetimes, serde(with/from/into/transparent/other) and #[openapi(schema_with)] are not in the grammar"],
+                 "generic types, lifetimes, serde(with/from/into/other/untagged variants) and #[openapi(schema_with)] are not in the grammar"],
 )
 META["C16"] = dict(
     engine="gen/c16gen.py (program generator) + cargo build of the generated crates against /repo + oracle/schema_judge.py",
